@@ -62,10 +62,37 @@ def scenarios(draw):
             for t in g["transcripts"]:
                 if ids and src.bool(0.3):
                     t["id"] = ids.pop()
+    # short reads of some experiments (YAML key "illumina bam"): a gene-free contig with long reads whose junctions are 4
+    # bases off the junctions that the short reads support - corrected only in the experiments that have short reads
+    if src.bool(0.4):
+        L = src.int(3000, 5000)
+        sc["chroms"].append(["chrS", L, src.int(1, 10 ** 6)])
+        a = src.int(200, 400)
+        chain = [[a, a + 199], [a + 500, a + 699], [a + 1000, a + 1306]]
+        short = []
+        for i in range(2):
+            for _ in range(src.int(1, 3)):
+                short.append(R.make_read("s%d" % len(short), "chrS", [[chain[i][1] - 30, chain[i][1]],
+                                                                      [chain[i + 1][0], chain[i + 1][0] + 30]]))
+        sc["short_reads"] = short
+        for j in range(src.int(3, 6)):
+            blocks = [list(e) for e in chain]
+            if src.bool(0.7):
+                blocks[2][0] -= 4
+            else:
+                blocks[0][1] += 4
+            r = R.make_read("q%d" % j, "chrS", blocks, polya=25)
+            allreads.append(r)
+            for e in exps:
+                if e is exps[0] or src.bool(0.7):
+                    e["idx"].append(len(allreads) - 1)
+                    e["assign"].append(src.int(0, e["nfiles"] - 1))
+        for e in exps:
+            e["short"] = src.bool(0.5)
     sc["reads"] = allreads
     sc["experiments"] = exps
     sc["order"] = src.shuffle(list(range(ne)))
-    sc["input_kind"] = src.choice(["yaml", "yaml", "bam_list"])
+    sc["input_kind"] = "yaml" if sc.get("short_reads") else src.choice(["yaml", "yaml", "bam_list"])
     sc["threads"] = src.choice([1, 1, 2, 4])
     sc["opts"] = ["--data_type", src.choice(["nanopore", "pacbio_ccs"]), "--no_gzip"]
     if src.bool(0.3):
@@ -125,6 +152,9 @@ def write_inputs(sc, d):
         for u in range(e.get("unmapped", 0)):
             sub["reads"].append(S.unmapped_read("%s_u%d" % (e["name"], u), file=u % e["nfiles"]))
         files[e["name"]] = build.write_bams(sub, genome, ind, prefix=e["name"] + "_")
+    if sc.get("short_reads"):
+        files["__short__"] = build.write_bams({"chroms": sc["chroms"], "reads": sc["short_reads"], "nfiles": 1}, genome,
+                                              ind, prefix="short")
     return fa, gtf, files
 
 
@@ -132,6 +162,8 @@ def yaml_for(exps, files, path):
     doc = [{"data format": "bam"}]
     for e in exps:
         ent = {"name": e.get("given", e["name"]), "long read files": files[e["name"]]}
+        if e.get("short") and files.get("__short__"):
+            ent["illumina bam"] = list(files["__short__"])
         if e["labels"]:
             ent["labels"] = ["%s_rep%d" % (e["name"], i) for i in range(len(files[e["name"]]))]
             if e.get("numeric_labels"):
